@@ -92,6 +92,10 @@ type gen struct {
 	hsm   types.HashSegmentMap
 	roots []types.OpaqueHash // keys of hsm in creation order
 	depth int
+	// big: how many octet strings of the value under construction may still be made large (tens of KiB and more:
+	// code blobs, preimages, storage values, bundles; buffers that grow, are recycled or handed out by reference behave
+	// differently beyond the sizes the small values reach)
+	big int
 }
 
 var boundaries = []uint64{0, 1, 2, 127, 128, 255, 256, 1<<14 - 1, 1 << 14, 1<<21 - 1, 1 << 21, 1<<28 - 1, 1 << 28, 1<<32 - 1, 1 << 32, 1<<35 - 1, 1 << 35, 1<<42 - 1, 1 << 42, 1<<49 - 1, 1 << 49, 1<<56 - 1, 1 << 56, 1<<63 - 1, 1 << 63, 1<<64 - 1}
@@ -327,6 +331,10 @@ func (g *gen) fill(v reflect.Value) {
 				n = []int{0, 1, 32, 33, 200}[n]
 				if n > 1 {
 					n = n - 1 + g.t.Choose(3, "blob_len_jitter")
+				}
+				if g.big > 0 && g.t.Prob(1, 3, "blob_big") {
+					g.big--
+					n = []int{4095, 4096, 16383, 16384, 65535, 65536, 65537, 98304, 200000}[g.t.Choose(9, "blob_big_len")]
 				}
 			case t == tAuthPool:
 				n = g.smallLen(types.AuthPoolMaxSize)
@@ -718,6 +726,10 @@ func runOne(tt *testing.T, r *sim.Run) {
 			val.pr = protos[t.Pick(weights, "proto")]
 			val.v = val.pr.mk()
 			g.depth = 0
+			g.big = 0
+			if t.Prob(1, 10, "value_with_big_blobs") {
+				g.big = 1 + t.Choose(2, "big_blobs")
+			}
 			g.fill(reflect.ValueOf(val.v).Elem())
 			val.canon = canonOf(val.v)
 			if st, ok := val.v.(*types.State); ok {
